@@ -72,6 +72,9 @@ type Fire struct {
 	Slot  int  `json:"slot"`
 	After bool `json:"after"` // after the read at index At (between capture and AddDependency is "mid")
 	Mid   bool `json:"mid"`
+	// Spin > 0: the write is made by another goroutine after that many scheduler yields (it
+	// lands around the moment the run returns and the rerunner arms itself)
+	Spin int `json:"spin,omitempty"`
 }
 
 type Action struct {
@@ -389,6 +392,17 @@ func (rn *runner) compute(ctx context.Context) (interface{}, error) {
 			if f.Run == run && f.At == at && f.After == after && !f.Mid {
 				if after {
 					atomic.AddInt32(&m.hits.WriteDuringRunAfterDep, 1)
+				}
+				if f.Spin > 0 {
+					atomic.AddInt32(&m.stragglers, 1)
+					go func(f Fire) {
+						defer atomic.AddInt32(&m.stragglers, -1)
+						for i := 0; i < f.Spin; i++ {
+							runtime.Gosched()
+						}
+						m.write(f.Slot)
+					}(f)
+					continue
 				}
 				m.write(f.Slot)
 			}
@@ -911,6 +925,9 @@ func Gen(t *rapid.T, cacheDepth int, hooks bool) Case {
 				f.After = true
 			case 2:
 				f.Mid = true
+			}
+			if f.At == len(comp.Reads) && !f.Mid && rapid.Bool().Draw(t, "fspin") {
+				f.Spin = rapid.SampledFrom([]int{1, 2, 4, 8, 16, 40}).Draw(t, "spin")
 			}
 			comp.Fire = append(comp.Fire, f)
 		}
